@@ -105,7 +105,7 @@ def features_of(rec, scn, aux):
     flat = rec["flat"]
     if sum(flat["counts"]) == 0:
         f.append("empty_data")
-    if flat["counts"] != flat["count"]:
+    if [[c, 1] for c in flat["counts"]] != [list(c) for c in flat["count"]]:
         f.append("weights_differ")
     if aux:
         if any(r < 0 for r in aux["rows"]):
